@@ -213,6 +213,81 @@ def build() -> Check:
     ck.ob("R3.replay-decision-sees-whole-history", fn_construct(wrapper), ok,
           f"the initial replay status is `{txt[:140]}`: it looks only at the first page, before the remaining pages are fetched - a history whose first page holds just the "
           "EXECUTION operation starts in NEW mode and every log line of already completed work is emitted again")
+    # R5 the REPLAY -> NEW boundary is computed from the merged history -------------------------------
+    sc = prog.cls("state", "ExecutionState")
+    from sa.common import methods_writing_operations, self_method_calls
+    flips = []
+    for m in sc.methods.values():
+        for st in ast.walk(m.node):
+            if isinstance(st, ast.Assign) and isinstance(st.targets[0], ast.Attribute) and st.targets[0].attr == "_replay_status" \
+                    and "NEW" in ast.unparse(st.value) and m.name != "__init__":
+                flips.append((m, st))
+    if not flips:
+        raise AnalysisError("no transition of _replay_status to NEW found in ExecutionState")
+    BASE = {"operations", "_visited_operations", "_replay_status", "_replay_status_lock", "_operations_lock"}
+    mergers = methods_writing_operations(prog)
+    for m, st in flips:
+        # attributes the guarding conditions depend on (directly or through locals / helper calls of the same method)
+        conds = []
+        for node in ast.walk(m.node):
+            if isinstance(node, ast.If) and any(st is x for b in node.body for x in ast.walk(b)):
+                conds.append(node.test)
+        dep_attrs, todo_names, seen_fn = set(), set(), set()
+
+        def collect(expr, fn):
+            for n in ast.walk(expr):
+                if isinstance(n, ast.Attribute) and isinstance(n.value, ast.Name) and n.value.id == "self":
+                    if n.attr in sc.methods and (fn.name, n.attr) not in seen_fn:
+                        seen_fn.add((fn.name, n.attr))
+                        for r in ast.walk(sc.methods[n.attr].node):
+                            if isinstance(r, ast.Return) and r.value is not None:
+                                collect(r.value, sc.methods[n.attr])
+                        for x in ast.walk(sc.methods[n.attr].node):
+                            if isinstance(x, ast.Attribute) and isinstance(x.value, ast.Name) and x.value.id == "self" and x.attr not in sc.methods:
+                                dep_attrs.add(x.attr)
+                    elif n.attr not in sc.methods:
+                        dep_attrs.add(n.attr)
+                if isinstance(n, ast.Name) and isinstance(n.ctx, ast.Load):
+                    for d in ast.walk(fn.node):
+                        if isinstance(d, (ast.Assign, ast.AnnAssign)) and d.value is not None:
+                            tg = d.target if isinstance(d, ast.AnnAssign) else d.targets[0]
+                            if isinstance(tg, ast.Name) and tg.id == n.id and (fn.name, "local", n.id) not in seen_fn:
+                                seen_fn.add((fn.name, "local", n.id))
+                                collect(d.value, fn)
+
+        for c_ in conds:
+            collect(c_, m)
+        caches = sorted(a for a in dep_attrs - BASE if not a.endswith("_lock"))
+        ck.analysed["replay_boundary_depends_on"] = sorted(dep_attrs)
+        ok_dep = "operations" in dep_attrs or bool(caches)
+        ck.ob("R5.boundary-depends-on-history", fn_construct(m), ok_dep, f"the switch to NEW depends on {sorted(dep_attrs)}: not on the operation history")
+        for a in caches:
+            for w in sc.methods.values():
+                for x in ast.walk(w.node):
+                    rhs = None
+                    if isinstance(x, (ast.Assign, ast.AnnAssign)) and x.value is not None:
+                        tg = x.target if isinstance(x, ast.AnnAssign) else x.targets[0]
+                        if isinstance(tg, ast.Attribute) and tg.attr == a and isinstance(tg.value, ast.Name) and tg.value.id == "self":
+                            rhs = x.value
+                    if isinstance(x, ast.AugAssign) and isinstance(x.target, ast.Attribute) and x.target.attr == a:
+                        rhs = x.value
+                    if isinstance(x, ast.Call) and isinstance(x.func, ast.Attribute) and x.func.attr in ("update", "add", "extend", "append") \
+                            and isinstance(x.func.value, ast.Attribute) and x.func.value.attr == a and x.args:
+                        rhs = x.args[0]
+                    if rhs is None or w.name == "__init__" and isinstance(rhs, (ast.Call, ast.Set, ast.Constant, ast.Dict, ast.List)) and not [n for n in ast.walk(rhs) if isinstance(n, ast.Name)]:
+                        continue
+                    txt = ast.unparse(rhs)
+                    from_merged = "self.operations" in txt
+                    loops = [l for l in ast.walk(w.node) if isinstance(l, ast.While)]
+                    after_pagination = w.name in mergers and loops and all(x.lineno > (l.end_lineno or 0) for l in loops)
+                    via_helper = any(isinstance(n, ast.Attribute) and isinstance(n.value, ast.Name) and n.value.id == "self" and n.attr in sc.methods
+                                     and "self.operations" in ast.unparse(sc.methods[n.attr].node) and not any(isinstance(v, ast.Name) and v.id != "self" for c0 in ast.walk(rhs) if isinstance(c0, ast.Call) for v in c0.args)
+                                     for n in ast.walk(rhs))
+                    ck.ob("R5.boundary-cache-built-from-merged-history", fn_construct(w), from_merged or after_pagination or via_helper,
+                          f"`self.{a}` (which decides the switch from REPLAY to NEW) is filled from `{txt[:80]}` in {w.name}: not from the merged operation map "
+                          "and not after the pagination loop - completed operations on later pages are ignored and their log lines are emitted again",
+                          where=f"line {x.lineno}", cell=a)
+
     # R4 terminal set sanity
     term = terminal_statuses(prog)
     ck.ob("R4.terminal-set", "state.py:ExecutionState.track_replay", {"SUCCEEDED", "FAILED"} <= term and not (term & {"STARTED", "PENDING", "READY"}),
